@@ -47,15 +47,19 @@ def validate(tla, cfg, execs_lines, name, timeout=1800):
         raise vlib.Broken("trace validation %s consumed %s of %s lines (file has %d)" % (name, m.group(1), m.group(2), n))
     os.unlink(path)
     first = {}
+    stats["env"] = []
     for line, clause in sorted((int(a), b) for a, b in re.findall(r'<<\s*(\d+),\s*"(\w+)"\s*>>', m.group(3))):
         j = max(i for i, st in enumerate(starts) if st <= line)
+        if clause.startswith("Env"):       # environment assumption of the specification, reported next to the verdicts
+            stats["env"].append((j, clause, line - starts[j] + 1))
+            continue
         if j not in first:
             first[j] = Issue(j, "rejected" if clause == "drift" else "invariant", clause, line - starts[j] + 1)
     return len(execs_lines) - len(first), [first[j] for j in sorted(first)], stats
 
 # ----------------------------------------------------------------------------- L1 monitor lines
 DEFM = {"k": "", "t": 0, "op": "", "a": 0, "n": 0, "al": 0, "id": 0, "fn": 0, "r": 0, "u": "", "ok": True, "intact": True,
-        "used": 0, "alloc": 0, "rng": [], "status": "", "P": 0}
+        "used": 0, "alloc": 0, "rng": [], "status": "", "P": 0, "am": 0}
 SIZE = {"pa": PA, "oa": OA, "da": DA}
 
 
@@ -80,10 +84,10 @@ def monitor_lines(events):
         flush()
         t = max(e.get("t", 0), 0)
         if k == "reset":
-            seq = e["scn"] == "seq"
+            seq = e["scn"] in ("seq", "real")
             out.append(dict(DEFM, k="reset", P=int(e["params"]["P"])))
         elif k == "palloc":
-            out.append(dict(DEFM, k=k, t=t, a=e["pg"]))
+            out.append(dict(DEFM, k=k, t=t, a=e["pg"], am=e.get("pm", 0)))   # pm: real page pointer % page size
         elif k == "pfree":
             out.append(dict(DEFM, k=k, t=t, a=e["pg"], ok=e["ok"]))
         elif k in ("ualloc", "ufree"):
@@ -96,7 +100,7 @@ def monitor_lines(events):
             op = e["op"]
             n = dict(DEFM, k=k, t=t, op=op, r=e.get("r", 0))
             if op == "alloc":
-                n.update(a=e["a"], n=e["n"], al=e["al"])
+                n.update(a=e["a"], n=e["n"], al=e["al"], am=e.get("am", 0))   # am: real pointer % alignment
             elif op == "rd":
                 n.update(id=e["id"], fn=e["fn"])
             elif op == "contains":
@@ -250,6 +254,16 @@ FIXED = [
     (256, "a:0:1.a:0:512.a:0:8.a:256:256.a:0:256.r.a:0:1"),
     (256, "a:8:8.a:1:1024.a:8:8.cf:0.cf:-1.r"),                                    # alignment pushes free_begin past free_end
 ]
+
+# the resource on babylon's own allocator stack (scenario real): every alignment class, fresh pages for alignment == P
+def real_programs(quick):
+    out = []
+    for P, stacks in ((4096, ["nd"]), (16384, ["nd", "cached"]), (65536, ["nd", "heap"])) if quick else \
+            ((4096, ["nd", "cached", "heap"]), (8192, ["nd", "heap"]), (16384, ["nd", "cached", "heap"]), (65536, ["nd", "cached", "heap"])):
+        prog = "a:8:8.a:100:64.a:1:4096.a:100:8192.a:1:%d.a:1:%d.d.a:%d:%d.am:3:100:%d.cb:0:0.r.a:8:8192.a:64:%d.am:2:%d:%d.r" % (P, 2 * P, P, P, P, P, P // 2 + 1, P // 2)
+        out += [(P, prog, st) for st in stacks]
+    return out
+
 
 # move construction: the new object keeps new_delete_resource() as upstream (findings/C06_move_drops_upstream.md)
 MVC_WITNESS = [(256, "a:300:8.mc.r"), (256, "a:8:8.mc.a:300:8.d.r")]
